@@ -68,11 +68,14 @@ func runC19(t *testing.T, seed uint64, m *Mask) *Report {
 	concurrent := r.Chance(0.6)
 	cutYield := r.Intn(60)
 	slowP := []float64{0, 0.3, 0.8}[r.Intn(3)]
+	// the proxy may name the sessions it accepts (an identify/auth plugin calling SetID): the caller's address is
+	// still its network address
+	named := r.Chance(0.4)
 	rep := &Report{NOps: 2 * len(pairs)}
 	if fault != "none" {
 		rep.NFaults = 1
 	}
-	rep.Cell = fmt.Sprintf("%s,fault=%s,realip=%v,concurrent=%v", proto, fault, withRealIP, concurrent)
+	rep.Cell = fmt.Sprintf("%s,fault=%s,realip=%v,concurrent=%v,named=%v", proto, fault, withRealIP, concurrent, named)
 
 	out := world.Run(t, opt, func(e *world.Env) {
 		for _, p := range pairs {
@@ -89,7 +92,8 @@ func runC19(t *testing.T, seed uint64, m *Mask) *Report {
 		var fwd erpc.Session
 		var fwdConn *simnet.Conn
 		pp := proxy.NewPlugin(func(*proxy.Label) proxy.Forwarder { return fwd })
-		prox := e.NewPeer("proxy", erpc.PeerConfig{}, pp, &world.Slow{Env: e, P: slowP})
+		nSessNamed := 0
+		prox := e.NewPeer("proxy", erpc.PeerConfig{}, &c07Namer{on: func() bool { return false }}, pp, &world.Slow{Env: e, P: slowP}, &c19Namer{on: func() bool { return named }, n: &nSessNamed})
 		fwd, _, fwdConn, _ = e.ServePair(prox, backend, pf, pf)
 		cli := e.NewPeer("cli", erpc.PeerConfig{})
 		direct, _, _, _ := e.ServePair(cli, backend, pf, pf)
@@ -229,4 +233,19 @@ func runC19(t *testing.T, seed uint64, m *Mask) *Report {
 	}
 	rep.Sample = sampleOps(ops, 3)
 	return finish(rep, out)
+}
+
+// c19Namer is a PostAccept plugin that names the sessions its peer accepts after their users.
+type c19Namer struct {
+	on func() bool
+	n  *int
+}
+
+func (c *c19Namer) Name() string { return "c19-namer" }
+func (c *c19Namer) PostAccept(s erpc.PreSession) *erpc.Status {
+	if c.on() {
+		*c.n++
+		s.SetID(fmt.Sprintf("user-%d", 1000+*c.n))
+	}
+	return nil
 }
